@@ -13,6 +13,8 @@ from vlib.core import Result, pmap, merge_results, quiet
 from vlib.grids import innermost_repo_frame
 
 GETTERS = ["get_full_grid_as_array", "get_total_volumes", "get_full_adjacency", "get_full_borders", "get_full_distances"]
+SELECTOR_VARIANTS = ["get_full_adjacency(only_orientation)", "get_full_adjacency(only_position)",
+                     "get_full_distances(only_orientation)", "get_full_distances(only_position)"]
 T_GRIDS = {1: ["[0.3]", "0.25"], 2: ["[0.2, 0.35]", "linspace(0.1, 0.4, 2)"], 3: ["[0.1, 0.2, 0.4]", "range(1, 4)"],
            4: ["[0.1, 0.2, 0.4, 0.5]", "linspace(0.2, 0.8, 4)"]}
 
@@ -37,10 +39,16 @@ def judge(case):
         if not allowed(e):
             msgs.append(f"construct: {type(e).__name__} at {innermost_repo_frame(e)}: {e}")
         return msgs, outcomes
-    for g in GETTERS:
+    for g in GETTERS + SELECTOR_VARIANTS:
+        kwargs = {}
+        if "(" in g:      # "get_full_adjacency(only_orientation)": the getter with one of its optional selectors switched on
+            g_name, sel = g[:-1].split("(")
+            kwargs = {sel: True}
+        else:
+            g_name = g
         try:
             with quiet():
-                val = getattr(fg, g)()
+                val = getattr(fg, g_name)(**kwargs)
         except Exception as e:
             outcomes[g] = type(e).__name__
             if not allowed(e):
@@ -116,7 +124,7 @@ def run(tier):
             keep.append(v)
     res.violations = keep
     rule = (f"exhaustive box: n_b in {list(nb_range)}, n_o in {list(no_range)}, n_t in {list(nt_range)} (two radial syntaxes "
-            f"each), both position modes, algorithm pairs {combos} plus bare-number names, all five getters per grid. "
+            f"each), both position modes, algorithm pairs {combos} plus bare-number names, all five getters per grid, adjacency and distances also with each optional selector (only_orientation / only_position). "
             f"Non-trivial = a tiny case (n_b<=3 or n_o<=3 or a single radius); distinct = distinct specification.")
     return res, rule, {"exhaustive": True, "assumptions": [
         "Cartesian mode with n_o < 3: the geometry library's QhullError is an allowed rejection (stated in the property)"]}
